@@ -339,11 +339,12 @@ def build_mockery(ctx, tools=False):
     t = time.time()
     if tools:
         out = os.path.join(bindir, "mockery-tools")
-        p = subprocess.run(["go", "build", "-tags", GUARD_TAG, "-o", out, "."], cwd=os.path.join(src, "tools"),
+        p = subprocess.run(["go", "build", "-trimpath", "-tags", GUARD_TAG, "-o", out, "."], cwd=os.path.join(src, "tools"),
                            env=env, capture_output=True, text=True)
     else:
         out = os.path.join(bindir, "mockery")
-        p = subprocess.run(["go", "build", "-tags", GUARD_TAG, "-o", out, "."], cwd=src, env=env,
+        # -trimpath: the scratch copy has a fresh path on every run; without it every run would add a full set of objects to the build cache
+        p = subprocess.run(["go", "build", "-trimpath", "-tags", GUARD_TAG, "-o", out, "."], cwd=src, env=env,
                            capture_output=True, text=True)
     if p.returncode != 0:
         sys.stderr.write(p.stdout + p.stderr)
@@ -691,7 +692,7 @@ def go_vet(cwd, pkgs=("./...",), tags=None, timeout=900):
 def go_compile(cwd, pkgs=("./...",), tags=None, timeout=900):
     """Parse + type-check + compile packages including their test files, running nothing and no vet
     analyzers: the toolchain as validity oracle (`go test -run ^$ -vet=off`)."""
-    cmd = ["go", "test", "-count=1", "-run", "^$", "-vet=off"]
+    cmd = ["go", "test", "-trimpath", "-count=1", "-run", "^$", "-vet=off"]
     if tags:
         cmd += ["-tags", tags]
     cmd += list(pkgs)
@@ -713,17 +714,17 @@ def helper_bin(name):
     return p
 
 
-def guard_disk(min_free_gb=25, older_than_min=30):
-    """Scratch copies have fresh paths, so every run adds to the Go build cache (about 0.3 GB). When the disk runs low, cache
-    entries not used for `older_than_min` minutes are removed; the go command treats a missing entry as a miss, so this is safe
-    while other builds are running. Nothing is removed while there is room."""
+def guard_disk(min_free_gb=25):
+    """Scratch modules have fresh paths, so runs add to the Go build cache. When the disk runs low the cache is emptied as a whole
+    (`go clean -cache`): removing individual entries by age leaves index entries whose data file is gone, and the linker then fails
+    with "cannot open file ...-d" (seen once; see DESIGN 10.11). A build that runs concurrently with the clean-up may fail once;
+    such a failure is an INCONCLUSIVE build error, never a verdict. Nothing is removed while there is room."""
     try:
         cache = os.environ.get("GOCACHE") or os.path.expanduser("~/.cache/go-build")
         st = os.statvfs(cache if os.path.isdir(cache) else "/")
         if st.f_bavail * st.f_frsize >= min_free_gb * (1 << 30) or not os.path.isdir(cache):
             return
-        subprocess.run(["find", cache, "-type", "f", "-mmin", "+%d" % older_than_min, "!", "-name", "README", "!", "-name", "trim.txt", "-delete"],
-                       stdout=subprocess.DEVNULL, stderr=subprocess.DEVNULL, timeout=1800)
+        subprocess.run(["go", "clean", "-cache"], env=base_env(), stdout=subprocess.DEVNULL, stderr=subprocess.DEVNULL, timeout=1800)
     except Exception:
         pass
 
@@ -777,7 +778,7 @@ def build_harness(ctx, name, race=False):
             shutil.copy(os.path.join(srcdir, fn), os.path.join(d, fn))
     out = os.path.join(ctx.root, "bin", "h_" + name)
     os.makedirs(os.path.dirname(out), exist_ok=True)
-    cmd = ["go", "build", "-tags", GUARD_TAG] + (["-race"] if race else []) + ["-o", out, "./zzverif_" + name]
+    cmd = ["go", "build", "-trimpath", "-tags", GUARD_TAG] + (["-race"] if race else []) + ["-o", out, "./zzverif_" + name]
     t = time.time()
     p = subprocess.run(cmd, cwd=ctx.src, env=base_env(), capture_output=True, text=True)
     if p.returncode != 0:
